@@ -90,6 +90,11 @@ SCALES = (2.0, -2.0, 3.0, 2.0 ** -30, 2.0 ** 20)
 # the two extreme factors are run on the library's own two cumulative series and on one user measure
 EXTREME_MEASURES = ('array', 'arias', 'stair')
 NARROW = (('i8', np.int8, lambda w: True), ('u8', np.uint8, lambda w: min(w) >= 0))
+# the same pattern as counts near the top of a narrow / unsigned integer type (power-of-two factor: the tie classes carry over);
+# squares leave the type
+NARROW_SCALED = (('i8x32', np.int8, 32, lambda w: True), ('i16x8192', np.int16, 8192, lambda w: True),
+                 ('i32x2^29', np.int32, 2 ** 29, lambda w: True), ('u8x64', np.uint8, 64, lambda w: min(w) >= 0),
+                 ('u16x16384', np.uint16, 16384, lambda w: min(w) >= 0))
 STAT_GENERATORS = ('generate_cumulative_stats', 'generate_duration_stats', 'generate_all_motion_stats',
                    'generate_displacement_and_velocity_series')
 LAZY = ('time', 'npts', 'velocity', 'displacement', 'pga', 'pgv', 'pgd', 'arias_intensity', 'cav')
@@ -204,7 +209,8 @@ def build(tier, seed):
                              'brac-some-exceed', 'brac-none-exceeds', 'brac-exact-tie', 'brac-monotone',
                              'brac-joint-scaling', 'int-input', 'int-record-i64', 'int-record-list',
                              'brac-tiny-threshold', 'brac-zero-threshold-below-0.05g', 'brac-monotone-scaled',
-                             'scaling-tiny', 'scaling-huge', 'int-array-i8', 'int-array-u8', 'int-record-i8',
+                             'scaling-tiny', 'scaling-huge', 'int-array-i8', 'int-array-u8', 'int-record-i8', 'int-array-i8x32', 'int-array-u16x16384',
+                             'int-array-list', 'int-record-i16x8192',
                              'edge-fraction', 'edge-fraction-decided', 'default-options', 'history-object',
                              'brac-history-object', 'brac-threshold-next-to-sample', 'purity', 'a-b-a',
                              'one-sample'],
@@ -225,7 +231,9 @@ def build(tier, seed):
             'the duration functions describe the record the object holds now: an object that held other records '
             '(one of them of the same length) and had its stat generators called / lazy properties read gives the '
             'same result as a fresh one; the generators themselves are not checked (their exceptions are ignored)',
-            'narrow integer records (int8, uint8) are examined for the alphabet values only (|a| <= 2)',
+            'narrow / unsigned integer records are examined with the alphabet values and with the alphabet times a power of two that reaches '
+            'the top of the type (int8 x32, int16 x8192, int32 x2^29, uint8 x64, uint16 x16384), and calc_sig_dur_vals is given a Python '
+            'list (documented as array-like): squares used to be evaluated in the array dtype / raise TypeError (repaired in /repo)',
             'a query leaves its arguments unchanged: the array given to calc_sig_dur_vals, the object, and the '
             'series returned by a user measure (the staircase measure hands out its own stored array)',
             'zero-prefix shift by k*dt is asserted where the exact running series of the measure is shift-covariant '
@@ -433,6 +441,14 @@ def run_case(case):
     a_f = np.array(w, dtype=float)
     a_i = np.array(w, dtype=np.int64)
     int_arrays = [('i64', a_i)] + [(tag, np.array(w, dtype=dt_)) for tag, dt_, fits in NARROW if with_rel and fits(w)]
+    held_by = {tag: list(w) for tag, _ in int_arrays}
+    if with_rel:
+        for tag, dt_, k, fits in NARROW_SCALED:
+            if fits(w):
+                int_arrays.append((tag, (a_i * k).astype(dt_)))
+                held_by[tag] = [int(x) * k for x in w]
+        int_arrays.append(('list', [int(x) for x in w]))       # documented as array-like
+        held_by['list'] = list(w)
     staircase.store.clear()
     cum = cum_reference(w)
     acc_by = {}
@@ -457,7 +473,8 @@ def run_case(case):
         # the same record held with an integer dtype: int64 array, list of Python ints
         int_sigs = []
         for tag, make in (('i64', lambda: a_i.copy()), ('list', lambda: [int(x) for x in w]),
-                          ('i8', lambda: np.array(w, dtype=np.int8))):
+                          ('i8', lambda: np.array(w, dtype=np.int8)), ('i8x32', lambda: (a_i * 32).astype(np.int8)),
+                          ('i16x8192', lambda: (a_i * 8192).astype(np.int16))):
             if tag != 'i64' and not with_rel:
                 continue
             ok, sg = r.call('construct', {'w': w, 'dt': dt, 'container': tag}, eqsig.AccSignal, make(), dt)
@@ -742,7 +759,7 @@ def run_case(case):
         cnt['purity'] += 1
         r.expect('purity.array-argument', {'w': w, 'dt': dt},
                  a_f.dtype == np.float64 and a_f.tolist() == [float(x) for x in w]
-                 and all(a.tolist() == w for _, a in int_arrays),
+                 and all((a if isinstance(a, list) else a.tolist()) == held_by[t_] for t_, a in int_arrays),
                  'the array handed to calc_sig_dur_vals was modified', observed=a_f, expected=w)
         try:
             held = sig.values.tolist() == [float(x) for x in w] and float(sig.dt) == dt
@@ -785,7 +802,9 @@ def snippet(case, v):
             "    m, _, cont = sub['measure'].partition('-')\n"
             "    kw = {} if f0 is None else {'start': float(f0), 'end': float(f1)}   # None: documented defaults\n"
             "    if sub.get('se') is not None or f0 is not None: kw['se'] = sub.get('se', True)\n"
-            "    if cont in ('i64', 'i8', 'u8'): a = a.astype({'i64': np.int64, 'i8': np.int8, 'u8': np.uint8}[cont])\n"
+            "    CONT = {'i64': (np.int64, 1), 'i8': (np.int8, 1), 'u8': (np.uint8, 1), 'i8x32': (np.int8, 32), 'i16x8192': (np.int16, 8192),\n"
+            "            'i32x2^29': (np.int32, 2 ** 29), 'u8x64': (np.uint8, 64), 'u16x16384': (np.uint16, 16384)}\n"
+            "    if cont in CONT: a = (a.astype(np.int64) * CONT[cont][1]).astype(CONT[cont][0])\n"
             "    if cont == 'list': a = [int(x) for x in a]\n"
             "    if cont: s = eqsig.AccSignal(a, sub['dt'])\n"
             "    if m.startswith('array'): print(kw, im.calc_sig_dur_vals(a, sub['dt'], **kw))\n"
